@@ -664,7 +664,7 @@ def r16f(an: Analysis, rep, rule="R16.F"):
         except BlockOutcome as o:
             return f"stops at `{norm_src(o.node)[:60]}`"
         return out
-    SRC = {"file": "./pkg/prog.py", "c": "x = 1", "e": "'y = ' + str(2)", "m": "pkg.mod"}
+    SRC = {"file": "./pkg/prog.py", "c": "x = 1", "e": "'y = ' + str(2)", "m": "pkg.tally"}
     bad_usage, bad_run = [], []
     n = 0
 
